@@ -289,7 +289,7 @@ class Stream(meta(Iterable, metaclass=StreamMeta)):
       return constructor(self._data)
     if isinstance(n, float):
       n = rint(n) if n > 0 else 0 # So this works with -inf and nan
-    return constructor(next(self._data) for _ in xrange(n))
+    return constructor(it.islice(self._data, max(n, 0)))
 
   def copy(self):
     """
